@@ -61,10 +61,10 @@ def run(ctx):
                 violations.append({"key": v["kind"], "what": v["what"], "replay": v.get("replay")})
     cov = {"stored_state_sizes": stored, "states": r.distinct, "transitions": r.generated, "traces_validated_against_impl": 1,
            "evaluations": summ["prim_rows"] + summ["inputs_probed"], "distinct_nontrivial": rows,
-           "rule": "(1) every byte string of length <= 3 (thorough 4) over the boundary alphabet {00,01,02,3f,40,41,7f,80,bf,c0,ff} is decoded with the implementation's VarInt, u16, u32, opaque<V>, Vec<u16>, Option<u8> decoders and TLC compares value and bytes consumed with the reference decoders of Codec.tla; (2) length headers written for boundary values are compared with EncVarInt; (3) authentic MLSMessages of every kind (public and private handshake, application, welcome, group info, key package) and their mutants (all truncations and boundary values in the framing region, non-minimal length prefix, trailing byte, random flips/swaps) plus random strings are decoded under catch_unwind with a counting allocator: no panic, bounded allocation, re-encoding equals consumed bytes, mls_encoded_len equals written length; TLC compares accept/reject with the complete PrivateMessage / Welcome schemas of WireSchema.tla. distinct_nontrivial = rows validated by TLC.",
+           "rule": "(1) every byte string of length <= 3 (thorough 4) over the boundary alphabet {00,01,02,3f,40,41,7f,80,bf,c0,ff} is decoded with the implementation's VarInt, u16, u32, opaque<V>, Vec<u16>, Option<u8> decoders and TLC compares value and bytes consumed with the reference decoders of Codec.tla; (2) length headers written for boundary values are compared with EncVarInt; (3) authentic MLSMessages of every kind (public and private handshake, application, welcome, group info, key package) and their mutants (all truncations and boundary values in the framing region, non-minimal length prefix, trailing byte, random flips/swaps) plus random strings are decoded under catch_unwind with a counting allocator: no panic, bounded allocation, re-encoding equals consumed bytes, mls_encoded_len equals written length; TLC compares accept/reject with the complete schemas of all five wire formats in WireSchema.tla (PublicMessage incl. proposals, commits and update paths, PrivateMessage, Welcome, GroupInfo, KeyPackage). distinct_nontrivial = rows validated by TLC.",
            "samples": summ.get("samples", [])[:2] or ["see replay"], "exhaustive": False,
            "prim_rows": summ["prim_rows"], "inputs_probed": summ["inputs_probed"], "authentic_messages": summ["authentic_messages"],
            "mutants_still_accepted": summ["accepted_mutants"], "max_alloc_per_input_byte": summ.get("max_alloc_ratio"), "message_kinds": summ.get("kinds")}
     return {"level": "model_checking", "coverage": cov, "violations": violations,
             "assumptions": ["universality over all byte strings / all values is sampled, not proved (DESIGN section 8)",
-                            "schemas of PublicMessage bodies, GroupInfo and KeyPackage are not transcribed: for those only the robustness oracles apply"]}
+                            "the grammar follows mls-rs where it is deliberately stricter than RFC 9420 (leaf index < 2^24, unique extension types per list, proposal type 0 reserved)"]}
